@@ -116,6 +116,11 @@ def plan(seed, subbatch):
             vcls = cfg.choice(("VWAP", "VWMA", "OBV"))
             members = [{"cls": vcls, "params": ({} if vcls == "OBV" else {"period": cfg.randint(2, 12)}),
                         "common": ({"timeframe": tf} if tf else {})}]
+    quiet = (not sparse) and sub_rng(seed, "quiet").random() < 0.08
+    if quiet:
+        # a quiet instrument: the whole history is flat and the FIRST measured candle of every rung is the one that
+        # moves (no settling stretch): a walk back over a run of equal readings would grow with the rung
+        regimes = ["stall"]
     rows, fired = world.make_stream(sub_rng(seed, "exchange"), total, base_s, start, faults, regimes=regimes)
     if regimes:
         fired["whole_stream_" + regimes[0]] += 1
@@ -123,7 +128,7 @@ def plan(seed, subbatch):
     # replayed at every rung, bucket aligned, so that data dependent early exits of look-back loops
     # behave identically at every rung and only the history length differs.
     pat = sub_rng(seed, "probe-pattern")
-    settle_n = 40 * per_bucket
+    settle_n = 0 if quiet else 40 * per_bucket
     pattern = []
     c = 0
     for _ in range(settle_n + M):
